@@ -29,6 +29,10 @@ impl ObserverId {
         }
 
         OBSERVER_ID.with(|x| {
+            #[cfg(cormacrelf_incremental_rs_verif)]
+            if crate::verif::take_observer_id_reset() {
+                x.set(0);
+            }
             let next = x.get() + 1;
             x.set(next);
             ObserverId(next)
